@@ -161,7 +161,7 @@ def const(v):
 class N:
     __slots__ = (
         "id", "kind", "fnkind", "args", "kwargs", "scope", "value", "expr", "src", "length", "index",
-        "fname", "seq_n", "node",
+        "fname", "seq_n", "node", "builtin",
     )
 
     def __init__(self, id, kind, **kw):
@@ -179,6 +179,7 @@ class N:
         self.fname = kw.get("fname")
         self.seq_n = kw.get("seq_n", 0)
         self.node = None  # real uberjob node after build
+        self.builtin = kw.get("builtin")  # a real (C) callable used instead of a harness function
 
     def nav_refs(self):
         out = []
@@ -345,7 +346,7 @@ def build(ir, plan, make_fn):
         if n.kind == "call":
             args = [build_expr(a, ir) for a in n.args]
             kwargs = {k: build_expr(a, ir) for k, a in n.kwargs}
-            fn = make_fn(n)
+            fn = n.builtin if n.builtin is not None else make_fn(n)
             if n.scope:
                 with plan.scope(*n.scope):
                     n.node = plan.call(fn, *args, **kwargs)
